@@ -19,7 +19,7 @@
     (The [right]/[left] annotations of one-sided items are the subject of C08.)
     Proofs: UnionThm.v ([union_correct], [union_mut_mirrors], [union_mut_slots]), SetOpsExtra.v. *)
 From Coq Require Import List NArith Sorted.
-From PT Require Import Lookup ViewsThm UnionThm SetOpsExtra.
+From PT Require Import Lookup ViewsThm UnionThm SetOpsExtra Arena Arena3 ArenaProps.
 From PT.Properties Require Import Common.
 Import ListNotations.
 
@@ -209,6 +209,25 @@ Proof.
   - exact (view_at_wf pfx _ _ _ _ _ _ _ _ _ (laws w fl Hw) _ qb vb (reachable_wfm w fl R Hw opsB HB) Hqb Eb).
 Qed.
 
+(** * The same statement about the ARENA-level transcription of the code (Arena*.v; ArenaProps.v
+      composes the refinement [Rep] with the tree-level theorem). *)
+Theorem C05_arena (amL : Arena.amap pfx L) (amR : Arena.amap pfx R) esL esR :
+  areach pfx L (peq w) (contains w fl) (is_bit_set w) plen (lcp w fl) pzero (okp w) amL -> areach pfx R (peq w) (contains w fl) (is_bit_set w) plen (lcp w fl) pzero (okp w) amR ->
+  Arena.a_entries pfx L amL = Arena.Ok esL -> Arena.a_entries pfx R amR = Arena.Ok esR ->
+  exists out outm,
+    Arena3.a_union pfx L R (contains w fl) (is_bit_set w) plen (mcmp w) (Arena.tbl amL) (Arena.tbl amR) 0 0 = Arena.Ok out /\
+    UnionThm.union_spec pfx L R (kbits w) esL esR out /\
+    Arena3.a_union_mut pfx L R (contains w fl) (is_bit_set w) plen (mcmp w) (Arena.tbl amL) (Arena.tbl amR) 0 0 = Arena.Ok outm /\
+    map (fun it => (iprefix it, ilval it, irval it)) out
+    = map (fun '(p, l, r) => (p, option_map snd l, option_map snd r)) outm.
+Proof.
+  intros HL HR EL ER.
+  destruct (arena_C05_C08_union pfx L R _ _ _ _ _ _ _ _ _ (laws w fl Hw) amL amR esL esR HL HR EL ER)
+    as (out & outm & E1 & S & E2 & M).
+  exists out, outm. split; [exact E1|]. split; [exact S|]. split; [exact E2|].
+  etransitivity; [|exact M]. apply map_ext. intros [p l a|p a r|p l r]; reflexivity.
+Qed.
+
 End C05.
 
 (** Non-vacuity (w = 8).  Map A = {00/2 ↦ 1, 01/2 ↦ 2, 1/1 ↦ 3, 110/3 ↦ 4} over [nat] (its node
@@ -269,3 +288,4 @@ Print Assumptions C05_union_mut_keys.
 Print Assumptions C05_union_mut_slots.
 Print Assumptions C05_union_views.
 Print Assumptions C05_reachable.
+Print Assumptions C05_arena.
